@@ -40,6 +40,16 @@ for id in sorted(os.listdir('/verif/seeded')):
         "caught_by": caught.get(id, []),
         "caught_by_own_property": prop in caught.get(id, []),
     }
+    try:
+        fp = json.load(open('/verif/seeded/round2_first_pass.json'))['breaking_first_pass']
+    except Exception:
+        fp = {}
+    if id in fp:
+        meta["round"] = 2
+        meta["first_pass"] = {"reported_by": fp[id]["reported_by"], "undecided": fp[id]["undecided"],
+                              "note": "outcome of all quick checks before any rule was changed in response to the round-2 samples; caught_by below is after such changes and is in-sample where it differs"}
+    else:
+        meta["round"] = 1
     if id == 'C04-2':
         meta["rebased"] = "re-based after the D12 fix in /repo renamed the call in the context line (createTable -> createTableUnchecked); the removed lines are the same; demo re-run: fails with, passes without"
     if id == 'C07-2':
